@@ -107,6 +107,19 @@ def _t_mutate(lst, d=None):
 
 
 def _t_broken(a=0): return ('internal', None, None)
+def _t_odd_defaults(a, opt=None, when=None, amount=None, kind=None): return ('result', ['odd_defaults', a, opt is None], ('odd_defaults', (a,), {}))
+def _t_tc_only(a, b=0): return ('result', ['tc_only', a, b], ('tc_only', (a, b), {}))
+
+
+def _t_pd_strip(s):
+    if not isinstance(s, str):
+        return ('internal-or-invalid', None, None)      # the custom validator code itself fails: -32602 or -32603, not executed
+    return ('result', ['pd_strip', s.strip()], ('pd_strip', (s.strip(),), {}))
+
+
+def _t_cm(a, b=0): return ('result', ['cm', 'ProbeView', a, b], ('view.cm', (a, b), {}))
+def _t_sm(a, b=0): return ('result', ['sm', a, b], ('view.sm', (a, b), {}))
+def _t_bump(by=1): return ('result', ['bump', by if isinstance(by, int) and not isinstance(by, bool) else 1], ('cnt.bump', (by,), {}))
 
 
 def _t_byid(id, extra=0): return ('result', ['byid', id, extra], ('byid', (id, extra), {}))
@@ -119,6 +132,7 @@ TWINS = {
     'typed': _t_typed, 'js_checked': _t_js_checked, 'js_loose': _t_js_loose, 'slowfail': _t_slowfail, 'byid': _t_byid, 'wrapped': _t_wrapped, 'whoami': _t_whoami, 'ctxp': _t_ctxp, 'slow': _t_slow, 'fac1': _t_fac1, 'fac2': _t_fac2, 'boom': _t_boom, 'ctxm': _t_ctxm, 'view.vm': _t_vm,
     'typedctor': _t_typedctor, 'raiselib': _t_raiselib, 'pd_pos': _t_pd_pos, '_under': _t_under, 'ns._dotted': _t_dotted,
     'cowrapped': _t_cowrapped, 'js_draft4': _t_js_draft4, 'window': _t_window, 'mutate': _t_mutate, 'broken.vm': _t_broken,
+    'odd_defaults': _t_odd_defaults, 'tc_only': _t_tc_only, 'pd_strip': _t_pd_strip, 'view.cm': _t_cm, 'view.sm': _t_sm, 'cnt.bump': _t_bump,
 }
 
 
@@ -150,6 +164,7 @@ def err(id_: Any, code: int, message: Any = ANY_STR, data: Any = ANY) -> Dict[st
 
 
 ABSENT_MEMBER = object()   # the member must not be present
+ANY_CODE_32602_OR_32603 = object()
 
 
 class Expected:
@@ -185,11 +200,14 @@ def element(req: Dict[str, Any], exp: Expected, ctx_token: Any) -> Tuple[Any, st
             resp = err(id_, -32602)
         else:
             outcome, value, call = twin(*bound.args, **bound.kwargs)
-            if outcome not in ('invalid', 'internal'):
+            if outcome not in ('invalid', 'internal', 'internal-or-invalid'):
                 exp.executions.append(call)
             if outcome == 'invalid':
                 kind = 'unbound'
                 resp = err(id_, -32602)
+            elif outcome == 'internal-or-invalid':
+                kind = 'internal'
+                resp = {'jsonrpc': '2.0', 'id': id_, 'error': {'code': ANY_CODE_32602_OR_32603, 'message': ANY_STR, 'data': ANY}}
             elif outcome == 'internal':
                 # handling failed outside the method body (the view could not be built): -32603, nothing executed
                 kind = 'internal'
@@ -274,6 +292,8 @@ def match(expected_doc: Any, observed: Any) -> Optional[str]:
         return None
     if expected_doc is ANY_STR:
         return None if isinstance(observed, str) else 'not-a-string'
+    if expected_doc is ANY_CODE_32602_OR_32603:
+        return None if observed in (-32602, -32603) and not isinstance(observed, bool) else 'value-differs'
     if isinstance(expected_doc, dict):
         if not isinstance(observed, dict):
             return 'not-an-object'
@@ -321,6 +341,8 @@ def render(expected_doc: Any) -> Any:
         return '<any string>'
     if expected_doc is ABSENT_MEMBER:
         return '<absent>'
+    if expected_doc is ANY_CODE_32602_OR_32603:
+        return '<-32602 or -32603>'
     if isinstance(expected_doc, dict):
         return {k: render(v) for k, v in expected_doc.items()}
     if isinstance(expected_doc, list):
